@@ -81,6 +81,33 @@ package media
 //@   modifies
 //@   ensures n == ghostInt(m, "n")
 
+// the same three operations against the code (the abstract contracts above are what callers use): the set is the
+// sync.Map plus the atomic counter, and NOTHING ELSE is written - in particular no element of any slice or array that a
+// publisher walking the set could be reading (a copy-on-write snapshot must never be edited in place)
+//@ extern func atomic.AddInt32(addr *int32, delta int32) (n int32)
+//@   modifies *addr
+//@   ensures *addr == old(*addr) + delta && n == *addr
+//@ extern func (v *atomic.Value) Load() (x interface{})
+//@   modifies
+//@ extern func (v *atomic.Value) Store(x interface{}) ()
+//@   modifies misc(v)
+//@ func (m *consumptions) Add(c *consumption) ()
+//@   variant concrete
+//@   requires m != nil && c != nil
+//@   modifies m.count, mapAll(&m.Map), ghostAll("misc"), ghostAll("held")
+//@   ensures mapAt(&m.Map, c.cid) == c && m.count == old(m.count) + 1
+//@ func (m *consumptions) Remove(cid CID) (c *consumption)
+//@   variant concrete
+//@   requires m != nil && (mapAt(&m.Map, cid) != nil ==> typeIs(mapAt(&m.Map, cid), "*consumption"))
+//@   modifies m.count, mapAll(&m.Map), ghostAll("misc"), ghostAll("held")
+//@   ensures old(mapAt(&m.Map, cid)) == nil ==> c == nil && m.count == old(m.count)
+//@   ensures old(mapAt(&m.Map, cid)) != nil ==> c == old(mapAt(&m.Map, cid)).(*consumption) && mapAt(&m.Map, cid) == nil && m.count == old(m.count) - 1
+//@ func (m *consumptions) Count() (n int)
+//@   variant concrete
+//@   requires m != nil
+//@   modifies
+//@   ensures n == int(m.count)
+
 //@ extern func (q *queue.SyncQueue) Signal() ()
 //@   modifies ghostInt(q, "signals")
 //@   ensures ghostInt(q, "signals") == old(ghostInt(q, "signals")) + 1
